@@ -56,7 +56,7 @@ Apply(x, e) ==
     [] e.c = "ConnUnsub"    -> {ConnUnsub(x, e.a.i)}
     [] e.c = "NotifyStop"   -> {NotifyStop(x, e.a.i, 0, 0)}
     [] e.c = "NotifyRemove" -> {NotifyRemove(x, e.a.i)}
-    [] e.c = "UserSub"      -> {UserSub(x, e.a.id, e.a.fam)}
+    [] e.c = "UserSub"      -> {UserSub(x, e.a.id, e.a.fam, e.a.once)}
     [] e.c = "UserUnsub"    -> {UserUnsub(x, e.a.id, e.a.fam)}
     [] e.c = "VaSubscribe"  -> {VaSubscribe(x, e.a.mode, e.a.audio)}
     [] e.c = "VaUnsub"      -> {VaUnsub(x)}
